@@ -650,6 +650,19 @@ class Inliner(object):
                 found = self._first_call(host, cls_name)
                 if found is not None:
                     call, h, recv = found
+                    # an *expression helper* (body: ``return <expr>``) called with plain arguments is replaced by that
+                    # expression where it stands: no temporary, evaluation order untouched
+                    pre0, body0 = self._bind(h, call, recv, caller_names, None)
+                    if not pre0 and len(body0) == 1 and isinstance(body0[0], ast.Return) and body0[0].value is not None:
+                        val = ast.copy_location(body0[0].value, call)
+
+                        class R0(ast.NodeTransformer):
+                            def visit_Call(self_, node):
+                                if node is call:
+                                    return val
+                                return self_.generic_visit(node)
+                        R0().visit(s)
+                        return [s]
                     tmp = '_inl%d_%s' % (tmp_counter[0], h.name.strip('_'))
                     tmp_counter[0] += 1
                     tgt = ast.copy_location(ast.Name(id=tmp, ctx=ast.Store()), call)
